@@ -218,7 +218,7 @@ func (g *gcImpl) execCache(ws []string) (string, bool) {
 		select {
 		case out := <-done:
 			return out, true
-		case <-time.After(3 * time.Second):
+		case <-time.After(30 * time.Second):
 			return "hang", true
 		}
 	}
